@@ -33,3 +33,8 @@ chk("C03",
     "Complete enumeration of the finite decision table (1536 cells incl. SyncRead and the three front-ends), each cell executed on the real code under the scheduler with all schedules of caller continuation and background build (unbounded, happens-before cached), compared with ref.FailoverTable written from the README.",
     "Trusted: ref.FailoverTable as a faithful transcription of README bullets 2-7 (two ambiguous cells accept either documented outcome).",
     "exhaustive enumeration of a finite configuration table + stateless model checking of each cell", "DESIGN.md §C03")
+
+chk("C04",
+    "Exhaustive enumeration of schedules (preemption-bounded) of concurrent Gets plus caller behaviour after return (overwrite or reuse of the key buffer at every scheduling position relative to the background build, context cancellation) and one injected backend fault at every call position; termination through the scheduler's deadlock detection, lock accounting at quiescence, and a black-box follow-up that must rebuild every key exactly once.",
+    "Trusted: verif-tagged key-lock accessor; follow-up phase as the black-box meaning of 'a later Get is able to build again'. Same granularity and bounds as C01.",
+    "stateless model checking of the implementation with fault enumeration (preemption- and deviation-bounded DFS, deadlock detection)", "DESIGN.md §C04")
